@@ -221,12 +221,63 @@ def analyse_power_class(repo: Repo, rep: Report, cname: str, attr: str, factor_a
     return n + 1
 
 
+def per_antenna_axes(rep: Report, fwd: FuncInfo) -> int:
+    """The power the scaling is computed from is that of one (batch item, antenna) pair: the statements defining
+    `antenna_power` are evaluated (own arithmetic) on inputs of shape (B, A), (B, A, T) and (B, A, H, W) with distinct
+    entries and compared with mean |x|^2 over the trailing axes of each pair.  (torch reduces over *all* axes when `dim`
+    is the empty tuple - what `tuple(range(2, x.dim()))` is for a 2-D input.)"""
+    from ..constfold import Unfoldable
+    from ..frag import FragRaise, FragReturn, run_fragment
+
+    idx = [i for i, st in enumerate(fwd.body) if isinstance(st, ast.Assign) and any(isinstance(t, ast.Name) and t.id == "antenna_power" for t in st.targets)]
+    what = "per-antenna power statistic `antenna_power`"
+    if not idx:
+        rep.undecided("POWER-LAW", fwd, what, "definition not found at the top level of forward")
+        return 1
+    body = fwd.body[: idx[-1] + 1]
+
+    def mk(shape, base=[0]):
+        if not shape:
+            base[0] += 1
+            return float(base[0] % 7 + 1) * (1.0 if base[0] % 2 else -0.5)
+        return [mk(shape[1:]) for _ in range(shape[0])]
+
+    def flat(z):
+        return [y for t in z for y in flat(t)] if isinstance(z, list) else [z]
+
+    bad = None
+    for shape in ((3, 4), (2, 3, 5), (2, 2, 2, 3)):
+        x = mk(list(shape))
+        try:
+            env = run_fragment(body, {"x": x}, {"self.power_budget": None, "self.uniform_power": 1.0}, materialise=True)
+            got = env.get("antenna_power")
+        except (Unfoldable, FragRaise, FragReturn, TypeError) as exc:
+            rep.undecided("POWER-LAW", fwd, what, f"not evaluable for an input of shape {shape} ({exc})")
+            return 1
+        want = []
+        for b in range(shape[0]):
+            for a in range(shape[1]):
+                vals = flat(x[b][a])
+                want.append(sum(v * v for v in vals) / len(vals))
+        g = flat(got)
+        if len(g) != len(want) or any(abs(p_ - q_) > 1e-9 * max(1.0, abs(q_)) for p_, q_ in zip(g, want)):
+            bad = (shape, len(g), len(want))
+            break
+    if bad:
+        shape, ng, nw = bad
+        rep.violation("POWER-LAW", fwd, what, f"for an input of shape {shape} the statistic has {ng} value(s) where {nw} (batch item, antenna) pairs each need their own power" + (": with no trailing axes `dim=()` makes torch.mean reduce over the whole tensor, so every antenna of every batch item is scaled by one global factor (the per-antenna budget is not met, and an item's output depends on the other items)" if len(shape) == 2 else ""), node=fwd.body[idx[-1]])
+    else:
+        rep.ok("POWER-LAW", fwd, what, "mean |x|^2 over the trailing axes of each (batch item, antenna) pair for 2-D, 3-D and 4-D inputs", node=fwd.body[idx[-1]])
+    return 1
+
+
 def rule_per_antenna(repo: Repo, rep: Report) -> int:
     ci = repo.cls(AT, "PerAntennaPowerConstraint")
     fwd = repo.method(ci, "forward")
     n = 0
     for mode in ("budget", "uniform"):
-        atoms = {"self.power_budget is not None": mode == "budget"}
+        # the arm for inputs with trailing axes; the 2-D arm (each entry is an antenna's whole signal) is decided by per_antenna_axes
+        atoms = {"self.power_budget is not None": mode == "budget", "spatial_dims": True, "len(spatial_dims) > 0": True, "x.dim() > 2": True, "len(x.shape) > 2": True}
         attrs = {"self.power_budget": SV("det", Mono.sym("B")), "self.uniform_power": SV("det", Mono.sym("U"))}
         it = CBScaling(fwd, repo, cls=ci, config=cfg(atoms), attr_values=attrs)
         it.run({"x": SV("sig", ONE), "args": NONE_V, "kwargs": NONE_V})
@@ -234,6 +285,7 @@ def rule_per_antenna(repo: Repo, rep: Report) -> int:
         for v, r, _ in it.returns:
             judge_scaled(rep, fwd, f"PerAntennaPowerConstraint.forward ({mode})", v, E / N, T, "other:spatial_dims", it, node=r)
             n += 1
+    n += per_antenna_axes(rep, fwd)
     sd = [s for s in stmts_of(fwd.body) if isinstance(s, ast.Assign) and unparse(s.targets[0]) == "spatial_dims"]
     for s in sd:
         st, d, _ = classify(Inliner(fwd).inline(s.value), ["tuple(range(2, len(x.shape)))", "tuple(range(2, x.dim()))", "tuple(range(2, x.ndim))"])
